@@ -28,9 +28,9 @@ def _proj(x, scale):
     return int(r), abs(v - r) <= 1e-9 and abs(r) < 10 ** 7
 
 
-def _ev_target(solver, src, goals, res, lab2id, scale, max_cost=-1):
+def _ev_target(solver, src, goals, res, lab2id, scale, max_cost=-1, max_iter=-1):
     ev = {"e": "ret", "solver": solver, "mode": "target", "src": src, "goals": sorted(goals), "status": res.status.name,
-          "max_cost": max_cost, "has_path": res.solution is not None, "path": [], "obj": -1, "exact": True}
+          "max_cost": max_cost, "max_iter": max_iter, "has_path": res.solution is not None, "path": [], "obj": -1, "exact": True}
     if res.solution is not None:
         try:
             ev["path"] = [lab2id[x] for x in res.solution]
@@ -108,6 +108,13 @@ def run_graph(case):
                 return {"e": "ret", "solver": "dijkstra_edges", "mode": "all", "src": src, "status": r.status.name,
                         "dists": sorted([k, p[0]] for k, p in pr), "exact": all(p[1] for _, p in pr)}
             events.append(_guard("dijkstra_edges", _all_dij))
+        # iteration limits: any answer other than MAX_ITER must still be right
+        for mi in case.get("max_iters", (1, 2, 4)):
+            if nonneg:
+                events.append(_guard("dijkstra", lambda: _ev_target("dijkstra", src, [dst], dijkstra(labs[src], labs[dst], nb_w, max_iter=mi), lab2id, scale, max_iter=mi)))
+                events.append(_guard("astar", lambda: _ev_target("astar", src, [dst], astar(labs[src], labs[dst], nb_w, lambda s: 0.0, max_iter=mi), lab2id, scale, max_iter=mi)))
+            events.append(_guard("bfs", lambda: _ev_target("bfs", src, [dst], bfs(labs[src], labs[dst], nb_u, max_iter=mi), lab2id, 1, max_iter=mi)))
+            events.append(_guard("dfs", lambda: _ev_target("dfs", src, [dst], dfs(labs[src], labs[dst], nb_u, max_iter=mi), lab2id, 1, max_iter=mi)))
         events.append(_guard("bfs", lambda: _ev_target("bfs", src, goals, bfs(labs[src], pred, nb_u), lab2id, 1)))
         events.append(_guard("bfs", lambda: _ev_target("bfs", src, [dst], bfs(labs[src], labs[dst], nb_u), lab2id, 1)))
         events.append(_guard("dfs", lambda: _ev_target("dfs", src, [dst], dfs(labs[src], labs[dst], nb_u), lab2id, 1)))
